@@ -240,6 +240,25 @@ def rule_route(ctx: Ctx) -> RuleResult:
         at = gflow.node_of(r_)
         if any(a.kind == "call" and a.node is lookup for a in gflow.depends(r_.value, at.id if at else None)) or any(x is lookup for x in ast.walk(r_.value)):
             first = True
+    # ... and before anything else answers: every other return happens where the attribute lookup is known to have found nothing
+    if first and lookup is not None:
+        from ..shape import facts_at as _fa
+
+        lvar = next((d.var for d in gflow.all_defs if d.kind == "assign" and d.value is lookup), None)
+        for r_ in _rets(gg):
+            if r_.value is None or any(x is lookup for x in ast.walk(r_.value)):
+                continue
+            at = gflow.node_of(r_)
+            if isinstance(r_.value, ast.Name) and r_.value.id == lvar:
+                continue
+            if isinstance(r_.value, ast.BoolOp) and isinstance(r_.value.op, ast.Or) and isinstance(r_.value.values[0], ast.Name) and r_.value.values[0].id == lvar:
+                continue
+            if lvar is None or (lvar, False) not in _fa(ctx, gg, r_):
+                first = False
+                res.violation([gg.qualname, "attribute routing", "order"], f"get_getter_for: `{norm(r_)[:70]}` answers before (or regardless of) the "
+                                                                           f"attribute table: '{attribute}' does not reach NextGetter for those Sids",
+                              gg.relpath, r_.lineno)
+                break
     if ok and looked and first:
         res.ok("get_next -> get_getter_for", f"'{attribute}' is a key of attribute_getters and maps to NextGetter, looked up before the type table")
     else:
